@@ -167,6 +167,43 @@ def search(chk, broken):
                                          'python': 'from py_ballisticcalc import *; c=Calculator(); s=Shot(Weapon(2), Ammo(DragModel(0.3, TableG7), Unit.FPS(2700)), look_angle=Unit.Degree(20)); '
                                                    'c.set_weapon_zero(s, Unit.Yard(300)); import math; '
                                                    'c.fire(s, Unit.Foot(900*math.cos(math.radians(20))), Unit.Foot(900*math.cos(math.radians(20)))).trajectory[1].target_drop >> Unit.Foot'}))
+    # out of reach means an ERROR, never an angle: aim points at the edge of what the limits allow.  Whatever zeroing returns must
+    # survive the fire-back (the trajectory fired with it gets to the aim point, within the accuracy); a raise must leave the weapon alone
+    for it in range(8 if (chk.tier == 'quick' and not broken) else 300):
+        if chk.over():
+            break
+        cfg, shot, D = sg.gen_edge_of_reach(pbc, rng)
+        calc = pbc.Calculator(_config=cfg)
+        full = pbc.interface_config.create_interface_config(cfg)
+        look = shot.look_angle >> U.Radian
+        X = D * math.cos(look)
+        old_zero = shot.weapon.zero_elevation.raw_value
+        desc = {'op': 'zero-edge', 'look_deg': math.degrees(look), 'dist_ft': D, 'mv_fps': shot.ammo.mv >> U.FPS, 'bc': shot.ammo.dm.BC, 'config': cfg,
+                'alt_ft': shot.atmo.altitude >> U.Foot}
+        evals += 1
+        try:
+            calc.set_weapon_zero(shot, U.Foot(D))
+        except (pbc.ZeroFindingError, pbc.RangeError):
+            if shot.weapon.zero_elevation.raw_value != old_zero:
+                chk.failures.append(Failure('failed-zero-changed-weapon', 'a failed zeroing changed weapon.zero_elevation', desc))
+            continue
+        fb = copy.copy(shot)
+        fb.relative_angle = U.Radian(0)
+        try:
+            rows = calc.fire(fb, U.Foot(X), U.Foot(X)).trajectory
+        except pbc.RangeError as e:
+            chk.failures.append(Failure('angle-for-unreachable-target',
+                                        f'zeroing at {D:.0f} ft on a {math.degrees(look):.1f} deg sight line under {cfg} returned an angle, but the trajectory fired with it stops at '
+                                        f'{e.last_distance >> U.Foot:.1f} ft ({e.reason}) and never gets to the aim point at {X:.1f} ft: an error was due, not an angle',
+                                        desc))
+            continue
+        row = min(rows, key=lambda r: abs((r.distance >> U.Foot) - X))
+        miss = abs(row.target_drop >> U.Foot)
+        slope = abs(math.tan((row.angle >> U.Radian) - look))
+        allowed = full.cZeroFindingAccuracy + full.max_calc_step_size_feet * slope
+        if miss > allowed * 1.05 + 1e-9:
+            chk.failures.append(Failure('misses-sight-line:edge-of-reach', f'zeroed at {D:.0f} ft (edge of reach): {miss:.5f} ft from the sight line, allowed {allowed:.6f} ft',
+                                        {**desc, 'observed': miss, 'allowed': allowed}))
     # known open finding (known_findings.json): the fixed witness, so that the finding is reported on every run while it stays open
     calc = pbc.Calculator()
     shot = pbc.Shot(pbc.Weapon(U.Inch(2), 0), pbc.Ammo(pbc.DragModel(0.05, pbc.TableG1), U.FPS(1600)), U.Degree(6.5), atmo=pbc.Atmo.icao(U.Foot(0)))
